@@ -12,7 +12,8 @@ checkpoint text) lives in Model/SeqRender.lean and is compared by the driver. -/
 namespace Seq
 
 structure Leaf where
-  eid : Nat
+  eid : Nat      -- which submitted entry (all fields, incl. those the Merkle leaf does not cover)
+  key : Nat      -- its deduplication class (entry type, issuer key hash, certificate)
   ts : Nat
 deriving DecidableEq, Repr
 
@@ -237,7 +238,7 @@ def bundleOK (o : Nat) (tr : Tree) (items : List (TileId × Tree)) : Bool :=
   (newTilesList o tr.length).all (fun t => (items.map (·.1)).contains t) &&
   items.length == (newTilesList o tr.length).length
 
-def leavesOf (slots : List Slot) (ts : Nat) : Tree := slots.map fun sl => ⟨sl.eid, ts⟩
+def leavesOf (slots : List Slot) (ts : Nat) : Tree := slots.map fun sl => ⟨sl.eid, sl.key, ts⟩
 
 /-- store semantics of an upload: immutable objects are never rewritten with different content -/
 def storeUpload (st : Key → Option (Obj × Bool)) (k : Key) (imm : Bool) (o : Obj) (r : Res) :
